@@ -13,7 +13,7 @@
  'unwindset': ['igris_mmc_crc7.0:9', 'spec_crc_byte.0:9'],
  'complete_unwinding': 'inner bit loop of igris_mmc_crc7 (8 rounds) and the 8-round loop of the reference are unwound completely (unwinding assertions on)',
  'fallback': 'ghost-free',
- 'witness': {'unwind': 10},
+ 'witness': {'unwind': 330, 'defines': ['VC_WIT_MAXOBJ=40']},   # lengths up to 40 bytes = 320 bit steps: covers a single-pass loop over the bit stream too
 } @*/
 #include "vc.h"
 #include "c17_crc_ref.h"
@@ -26,9 +26,9 @@ uint32_t g_reg;        /* ghost: reference register (7 bits) */
 void harness(void)
 {
     WIT(uint8_t, n);
-    WIT_ARR(uint8_t, content, 6);
+    WIT_ARR(uint8_t, content, 40);
     __CPROVER_assume(n <= VC_MAXOBJ); /* no restriction in proof mode (2^40 > range of the length type); small sizes in witness mode */
-    uint8_t *data = NEW_OBJ(n); /* exact size: a read outside data[0..n) fails */
+    uint8_t *data = NEW_OBJ_FB(n); /* exact size: a read outside data[0..n) fails (fixed size in the cbmc fallback run, see vc.h) */
     FILL(data, (size_t)n, content);
     WIT(size_t, k);
     uint8_t at_k = k < n ? data[k] : 0;
